@@ -16,13 +16,14 @@ import (
 )
 
 // Index ranges: wire cases from 0, queue cases from 1_000_000, remote-layer
-// cases (queue 1_500_000, endpoint 1_700_000), helper-law
+// cases (queue 1_500_000, endpoint 1_700_000, remote-MX 1_800_000), helper-law
 // batches from 2_000_000, the literal census is case 3_000_000.
 const (
 	wireBase    = 0
 	queueBase   = 1_000_000
 	remoteQBase = 1_500_000
 	remoteWBase = 1_700_000
+	remoteMXBase = 1_800_000
 	lawBase     = 2_000_000
 	censusCase  = 3_000_000
 )
@@ -53,6 +54,12 @@ func TestVerif(t *testing.T) {
 	}
 	for i := 0; i < nRemoteW; i++ {
 		r.Run(remoteWBase+i, fmt.Sprintf("remote-wire-%d", i), func(c *rep.Case) { runRemoteWireCase(t, r, c, remoteWBase+i) })
+	}
+	// remote-MX layer: failures target.remote produces itself; every world of the
+	// fixed table is visited equally often (world = index mod table size)
+	nRemoteMX := r.N(len(mxWorlds)*8, len(mxWorlds)*80)
+	for i := 0; i < nRemoteMX; i++ {
+		r.Run(remoteMXBase+i, fmt.Sprintf("remote-mx-%d", i), func(c *rep.Case) { runRemoteMXCase(t, r, c, remoteMXBase+i) })
 	}
 	for i := 0; i < nLaw; i++ {
 		r.Run(lawBase+i, fmt.Sprintf("law-%d", i), func(c *rep.Case) { runLawCase(r, c, lawBase+i) })
